@@ -81,6 +81,35 @@ def extract_nested_variables(
     return all_subs, component_subs
 
 
+def scope_substitutions(var: myokit.Variable) -> dict[sp.Symbol, sp.Symbol]:
+    """Substitutions for the names that are written unqualified in the
+    expression of a variable, i.e. its own nested variables and the variables
+    nested in the enclosing variables (e.g. ``alpha`` and ``beta`` in
+    ``dot(m) = alpha * (1 - m) - beta * m``). These are mapped to the unique
+    names that are used for the corresponding gotran variables.
+
+    Parameters
+    ----------
+    var : myokit.Variable
+        The variable whose expression is being converted
+
+    Returns
+    -------
+    dict[sp.Symbol, sp.Symbol]
+        The substitutions, with the innermost scope taking precedence
+    """
+    subs: dict[sp.Symbol, sp.Symbol] = {}
+    scope = var
+    while isinstance(scope, myokit.Variable):
+        for v in scope.variables():
+            name = v.uname()
+            if name in reserved_names:
+                name = f"{name}_"
+            subs.setdefault(sp.Symbol(v.name()), sp.Symbol(name))
+        scope = scope.parent()
+    return subs
+
+
 def mmt_to_gotran(filename: str | Path) -> ODE:
     """Convert a myokit model to gotran ODE
 
@@ -151,7 +180,7 @@ def myokit_to_gotran(model: myokit.Model, protocol=None) -> ODE:
                 states.append(state)
                 with sp.core.parameters.evaluate(False):
                     expr = myokit.formats.sympy.write(var.eq().rhs)
-                    expr = expr.xreplace({v.name(): v.uname() for v in var.variables(deep=True)})
+                    expr = expr.xreplace(scope_substitutions(var))
                     expr = expr.xreplace(component_subs.get(component.name(), {}))
                     expr = expr.xreplace(all_subs)
 
@@ -181,9 +210,7 @@ def myokit_to_gotran(model: myokit.Model, protocol=None) -> ODE:
 
                 else:
                     with sp.core.parameters.evaluate(False):
-                        expr = expr.xreplace(
-                            {v.name(): v.uname() for v in var.variables(deep=True)}
-                        )
+                        expr = expr.xreplace(scope_substitutions(var))
                         expr = expr.xreplace(component_subs.get(component.name(), {}))
                         expr = expr.xreplace(all_subs)
 
